@@ -156,6 +156,10 @@ def run(ck, facts):
     for kind, where in sorted(reads.items()):
         ck.expect(kind in strips, "R2", "stripped/" + kind.split("::")[-1], "", "the AST reads attributes of %s (in %s) but the bridge macro never strips them from that node: rustc will reject `#[diplomat::…]` placed there although the tool accepts it" % (kind, where.split("::", 2)[-1]), None)
 
+    # the expansion compiles for every struct the tool accepts: #[repr(C)] is added exactly when the struct has no `repr` of its own (rule of C01.R5)
+    import c01
+    c01.macro_repr_flag_rule(ck, "R2", facts)
+
     # ---------------- R3 include pairing
     def arm_pairs(fn, name_call, include_calls):
         res = []
